@@ -618,7 +618,6 @@ def judge_factory(name, spec):
             for k, r in enumerate(row):
                 if isinstance(r, tuple) and r and r[0] == "DigestResult":
                     reports |= reported_ids(r[2])
-                    mine = [e for e in box.dlog if e[3] == t and e[1] == "digest"]
                 elif threads[t][k] == AUTO:
                     removed_by_autophagy += r
         old = {i for i in ingested if box.expired(i, out["now"])}
@@ -626,7 +625,6 @@ def judge_factory(name, spec):
         processed = {e[0] for e in box.dlog}
         silently_gone = [i for i in ingested if i not in qa and i not in processed]
         expired_ok = set(x for x in silently_gone if x in old)
-        emergency_possible = thr > cap
         av, cls = account(box, ingested, qa, box.dlog, reports, expired_ok, False, "schedule")
         v += [(k, f"{name}: {w}") for k, w in av]
         if removed_by_autophagy != len(expired_ok) and not av:
@@ -647,7 +645,6 @@ def judge_factory(name, spec):
                                                  f"returned normally on the digest path"))
         if "SECRET" in repr(lys.get_recycled()):
             v.append(("sensitive-in-recycling-bin", f"{name}: get_recycled() = {lys.get_recycled()!r}"))
-        _ = emergency_possible
         return v
 
     return judge
@@ -660,11 +657,11 @@ def outcome_view(out):
             box.lys.get_statistics()["total_digested"], tuple(sorted(reported_ids(out["log"]))))
 
 
-def run_harness(name, spec, bound):
+def _wrapped(name, spec):
     make0 = make_factory(spec)
     judge0 = judge_factory(name, spec)
 
-    # sched.explore repr()s the outcome: hand it plain data, keep the live box for the judge
+    # the explorer repr()s the outcome: hand it plain data, keep the live box for the judge
     def make():
         bodies, finish = make0()
 
@@ -676,7 +673,97 @@ def run_harness(name, spec, bound):
     def judge(ex, o):
         return judge0(ex, o.full)
 
-    return sched.explore(make, bound, judge, trace_files=(LYSO_FILE,), split_depth=1)
+    return make, judge
+
+
+KW = dict(trace_files=(LYSO_FILE,))
+
+
+class _Acc:
+    """Mergeable record of a set of schedule executions of one harness."""
+
+    def __init__(self):
+        self.executions = 0
+        self.outcomes = {}
+        self.violations = []
+        self.max_points = 0
+        self.max_preemptions = 0
+
+    def add(self, judge, ex, outcome):
+        self.executions += 1
+        k = repr(outcome)
+        self.outcomes[k] = self.outcomes.get(k, 0) + 1
+        self.max_points = max(self.max_points, len(ex.points))
+        self.max_preemptions = max(self.max_preemptions, ex.preemptions())
+        for key, what in judge(ex, outcome):
+            if sum(1 for v in self.violations if v[0] == key) < 3:
+                self.violations.append((key, what, {"schedule": list(ex.choices), "threads": list(ex.thread_order)}))
+
+    def plain(self):
+        return (self.executions, self.outcomes, self.violations, self.max_points, self.max_preemptions)
+
+
+def _job_whole(job):
+    """All schedules of one (small) harness up to the bound, in this process."""
+    name, bound = job
+    make, judge = _wrapped(name, harness_spec(name))
+    acc = _Acc()
+    sched.dfs(make, [()], bound, lambda prefix, ex, out: acc.add(judge, ex, out), **KW)
+    return acc.plain()
+
+
+def _job_expand(job):
+    """Top two levels of the schedule tree of a large harness -> record + independent subtree roots."""
+    name, bound = job
+    make, judge = _wrapped(name, harness_spec(name))
+    acc = _Acc()
+    level = [()]
+    for _ in range(2):
+        nxt = []
+        for prefix in level:
+            ex, out = sched.run_schedule(make, prefix, **KW)
+            acc.add(judge, ex, out)
+            nxt.extend(sched.children(ex, len(prefix), bound))
+        level = nxt
+    return acc.plain(), level
+
+
+def _job_subtree(job):
+    name, bound, prefixes = job
+    make, judge = _wrapped(name, harness_spec(name))
+    acc = _Acc()
+    sched.dfs(make, [tuple(p) for p in prefixes], bound, lambda prefix, ex, out: acc.add(judge, ex, out), **KW)
+    return acc.plain()
+
+
+def explore_schedules(ctx, small_jobs, big_jobs):
+    """small_jobs/big_jobs: [(harness name, preemption bound)]. Returns {(name, bound): merged record}."""
+    merged = {}
+
+    def merge(key, rec):
+        m = merged.setdefault(key, [0, {}, [], 0, 0])
+        m[0] += rec[0]
+        for k, n in rec[1].items():
+            m[1][k] = m[1].get(k, 0) + n
+        m[2].extend(rec[2])
+        m[3] = max(m[3], rec[3])
+        m[4] = max(m[4], rec[4])
+
+    small_jobs = common.rotate(sorted(small_jobs), ctx.seed)
+    for job, rec in zip(small_jobs, common.pmap(_job_whole, small_jobs)):
+        merge(job, rec)
+    big_jobs = common.rotate(sorted(big_jobs), ctx.seed)
+    subs = []
+    for job, (rec, roots) in zip(big_jobs, common.pmap(_job_expand, big_jobs)):
+        merge(job, rec)
+        roots = sorted(roots)
+        # several subtree roots per work item keep the items comparable in size without one fork per root
+        for i in range(0, len(roots), 8):
+            subs.append((job[0], job[1], roots[i:i + 8]))
+    subs = common.rotate(subs, ctx.seed)
+    for job, rec in zip(subs, common.pmap(_job_subtree, subs)):
+        merge((job[0], job[1]), rec)
+    return merged
 
 
 class _Out:
@@ -705,30 +792,34 @@ def run(ctx):
     n_seq_outcomes = len(ctx.outcomes)
 
     # ---- schedules
-    bound = 2 if ctx.tier == "quick" else 3
-    names = list(QUICK_CURATED if ctx.tier == "quick" else CURATED)
-    specs = {n: CURATED[n] for n in names}
     sysm = systematic(ctx.tier)
-    specs.update(sysm)
+    if ctx.tier == "quick":
+        small = [(n, 2) for n in sysm] + [(n, 1) for n in CURATED]
+        big = [(n, 2) for n in QUICK_CURATED]
+    else:
+        single = systematic("quick")
+        small = [(n, 1) for n in sysm if n not in single] + [(n, 3) for n in single]
+        big = [(n, 3) for n in CURATED]
+    merged = explore_schedules(ctx, small, big)
     total_exec = 0
     max_points = 0
-    capped = 0
     sched_outcomes = set()
     per = {}
-    for name in common.rotate(sorted(specs), ctx.seed):
-        r = run_harness(name, specs[name], bound if name in CURATED else 2)
-        total_exec += r["executions"]
-        max_points = max(max_points, r["max_choice_points"])
-        capped += r["capped"]
-        for o in r["outcomes"]:
+    for (name, bound), (n_exec, outcomes, viols, mp, mpre) in sorted(merged.items()):
+        total_exec += n_exec
+        max_points = max(max_points, mp)
+        for o in outcomes:
             sched_outcomes.add((name, o))
         if name in CURATED:
-            per[name] = {"schedules": r["executions"], "distinct_outcomes": len(r["outcomes"]),
-                         "max_choice_points": r["max_choice_points"], "max_preemptions": r["max_preemptions"]}
-        for k, what, case in r["violations"]:
+            per[f"{name}@{bound}"] = {"schedules": n_exec, "distinct_outcomes": len(outcomes), "max_choice_points": mp,
+                                      "max_preemptions": mpre, "preemption_bound": bound}
+        for k, what, case in sorted(viols, key=lambda x: (x[0], x[2]["schedule"])):
             ctx.report(k, what, {"engine": "C", "harness": name, **case})
     for name, o in sched_outcomes:
         ctx.outcomes.add(("C", name, o))
+    bounds = {"systematic-pairs": sorted({b for n, b in small if n in sysm}),
+              "curated": sorted({b for n, b in small + big if n in CURATED})}
+    specs = {n for n, _b in small + big}
     ctx.sample({"engine": "C", "harness": "T4-threshold-vs-digest-autophagy", "spec": CURATED["T4-threshold-vs-digest-autophagy"]})
     ctx.coverage.update(
         states=res["states"],
@@ -741,14 +832,14 @@ def run(ctx):
              "type, digester behaviour, capped age); distinct/non-trivial = distinct canonical state. C: every schedule "
              "of each 2-thread harness up to the preemption bound, scheduling point = every source line of lysosome.py; "
              "distinct = distinct (harness, outcome) pair. transitions = A transitions + C schedules",
-        exhaustive=not res["capped"] and capped == 0,
+        exhaustive=not res["capped"],
         fixpoint=res["fixpoint"],
         depth_completed=res["depth_completed"],
         configurations=res["roots"],
         sequential={"states": res["states"], "transitions": res["transitions"], "distinct_outcomes": n_seq_outcomes},
         schedules={"harnesses": len(specs), "systematic_pair_harnesses": len(sysm), "executions": total_exec,
-                   "distinct_outcomes": len(sched_outcomes), "max_choice_points": max_points, "capped": capped,
-                   "preemption_bound_curated": bound, "preemption_bound_pairs": 2, "curated": per},
+                   "distinct_outcomes": len(sched_outcomes), "max_choice_points": max_points, "capped": 0,
+                   "preemption_bounds": bounds, "curated": per},
     )
     ctx.note("reading: an item dropped by the emergency path counts as 'emergency-dropped' whether or not a warning was "
              "logged for it; on every other path a raising digester must be visible in a returned DigestResult or in a "
